@@ -204,7 +204,8 @@ class LocalFn:
         # as a default factory / key function handed to a real container
         return run_function(self.fdef, ([self.bound] if self.bound is not None else []) + list(args), kwargs, env=self.scope, budget=20000)
 PURE_METHODS = {
-    str: {'join', 'upper', 'lower', 'index', 'find', 'count', 'startswith', 'endswith', 'replace', 'strip', 'split', 'translate', 'format', 'zfill'},
+    str: {'join', 'upper', 'lower', 'index', 'find', 'rfind', 'rindex', 'count', 'startswith', 'endswith', 'replace', 'strip', 'rstrip', 'lstrip', 'split', 'rsplit', 'partition', 'rpartition', 'splitlines',
+          'translate', 'format', 'zfill', 'isdigit', 'isalpha', 'isalnum', 'isupper', 'islower', 'title', 'capitalize', 'removeprefix', 'removesuffix', 'encode', 'ljust', 'rjust', 'center', 'swapcase', 'casefold'},
     collections.Counter: {'most_common', 'elements', 'total'},
     bytes: {'strip', 'split', 'decode', 'startswith', 'endswith', 'rstrip', 'lstrip', 'replace'},
     dict: {'get', 'keys', 'values', 'items', 'copy'},
@@ -271,6 +272,16 @@ class Evaluator:
                 base = self.ev(e.value, env)
             except Unfoldable:
                 raise Unfoldable(f'attribute {src(e)}')
+            if isinstance(base, Instance):
+                if e.attr in base.attrs:
+                    return base.attrs[e.attr]
+                m = base.cls.method(e.attr)
+                if m is not None:
+                    return LocalFn(m[0], dict(m[1].scope), bound=base)
+                ok, v = base.cls.class_attr(e.attr, self)
+                if ok:
+                    return v
+                raise Raised('AttributeError', e.attr)
             if isinstance(base, dict) and e.attr in ('get', '__getitem__', 'keys', 'values', 'items'):
                 return getattr(base, e.attr)
             if isinstance(base, dict) and e.attr in base and all(isinstance(k_, str) and k_.isidentifier() for k_ in base):
@@ -572,6 +583,32 @@ class Evaluator:
                     return self.ev(kf.body, env2)
                 return run_function(kf.fdef, ([kf.bound] if kf.bound is not None else []) + [x], env=kf.scope, budget=max(0, self.budget), call_hook=self.call_hook)
             kwargs = dict(kwargs, key=keyfn)
+        if isinstance(e.func, ast.Name) and env.get(e.func.id) in (str, int, float, bool, list, tuple, dict, set) and e.func.id not in ('str', 'int', 'float', 'bool', 'list', 'tuple', 'dict', 'set'):
+            # a builtin type held in a variable (`cast_type=str ... cast_type(value)`)
+            try:
+                return env[e.func.id](*args, **kwargs)
+            except Exception as ex:
+                raise Raised(type(ex).__name__, f'{e.func.id}: {ex}')
+        if d == 'isinstance' and len(args) == 2:
+            kinds = args[1] if isinstance(args[1], tuple) else (args[1],)
+            for k_ in kinds:
+                if isinstance(k_, LocalClass):
+                    c_ = args[0].cls if isinstance(args[0], Instance) else None
+                    seen_ = []
+                    todo_ = [c_] if isinstance(c_, LocalClass) else []
+                    while todo_:
+                        x_ = todo_.pop()
+                        if x_ is k_:
+                            return True
+                        if x_ not in seen_:
+                            seen_.append(x_)
+                            todo_.extend(x_.bases)
+                elif isinstance(k_, type):
+                    if not isinstance(args[0], Instance) and isinstance(args[0], k_):
+                        return True
+                else:
+                    raise Unfoldable('isinstance against an unknown class')
+            return False
         if d in PURE_FUNCS:
             if any(isinstance(a, ast.Lambda) for a in list(args) + list(kwargs.values())):
                 def mk(lam):
@@ -662,12 +699,21 @@ def run_function(fdef, args, kwargs=None, env=None, budget=20000, call_hook=None
         args = args[:len(params)]
     for p, a in zip(params, args):
         scope[p] = a
+    for p, d in zip([a.arg for a in fdef.args.kwonlyargs], fdef.args.kw_defaults):
+        if d is not None:
+            scope[p] = ev.ev(d, scope)
+    if fdef.args.kwarg is not None:
+        named = set(params) | {a.arg for a in fdef.args.kwonlyargs}
+        scope[fdef.args.kwarg.arg] = {k: v for k, v in (kwargs or {}).items() if k not in named}
+        kwargs = {k: v for k, v in (kwargs or {}).items() if k in named}
     for k, v in (kwargs or {}).items():
         scope[k] = v
 
     active = active if active is not None else []          # exceptions being handled (for a bare `raise`, also inside a function called from a handler)
     yields = []
     is_gen = any(isinstance(n, (ast.Yield, ast.YieldFrom)) for st_ in fdef.body if not isinstance(st_, (ast.FunctionDef, ast.AsyncFunctionDef, ast.ClassDef)) for n in _walk_own(st_))
+
+    declared_global = set()
 
     def block(stmts):
         for s in stmts:
@@ -740,6 +786,8 @@ def run_function(fdef, args, kwargs=None, env=None, budget=20000, call_hook=None
         elif isinstance(s, ast.Assign):
             v = ev.ev(s.value, scope)
             for t in s.targets:
+                if isinstance(t, ast.Name) and t.id in declared_global:
+                    raise Unfoldable(f'assignment to global {t.id}')
                 ev.bind(t, v, scope)
         elif isinstance(s, ast.AugAssign) and (isinstance(s.target, ast.Name) or (isinstance(s.target, ast.Attribute) and dotted(s.target)) or isinstance(s.target, ast.Subscript)):
             cur = ev.ev(ast.copy_location(type(s.target)(**{**{f_: getattr(s.target, f_) for f_ in s.target._fields}, 'ctx': ast.Load()}), s.target), scope)
@@ -802,6 +850,9 @@ def run_function(fdef, args, kwargs=None, env=None, budget=20000, call_hook=None
                 for v in opened:
                     if isinstance(v, dict) and 'open' in v and 'mode' in v:
                         v['open'] = False
+        elif isinstance(s, (ast.Global, ast.Nonlocal)):
+            # reads of module-level names resolve through the scope anyway; a function that re-binds one is refused where it does so
+            declared_global.update(s.names)
         else:
             raise Unfoldable(f'statement {type(s).__name__}')
     try:
@@ -839,6 +890,7 @@ def module_scope(ix, relpath, _depth=0, _seen=None):
     _seen[relpath] = env
     mod = ix.module(relpath)
     ev = Evaluator(env)
+    retry = []
     for s in mod.tree.body:
         if isinstance(s, ast.ImportFrom) and s.module and _depth < 3:
             base = s.module.replace('.', '/')
@@ -863,10 +915,32 @@ def module_scope(ix, relpath, _depth=0, _seen=None):
             try:
                 env[s.targets[0].id] = ev.ev(s.value)
             except Exception:
-                pass
+                retry.append(s)
         elif isinstance(s, ast.FunctionDef):
             env[s.name] = LocalFn(s, env)
         elif isinstance(s, ast.ClassDef):
             bases = [env[b.id] for b in s.bases if isinstance(b, ast.Name) and isinstance(env.get(b.id), LocalClass)]
             env[s.name] = LocalClass(s, env, bases)
+        elif isinstance(s, (ast.For, ast.AugAssign, ast.Assign)) or (isinstance(s, ast.If) and not (isinstance(s.test, ast.Compare) and '__name__' in src(s.test))):
+            # tables filled by module-level statements (the canonical form of a module-level comprehension is a loop)
+            fn = ast.FunctionDef(name='_module_statement', args=ast.arguments(posonlyargs=[], args=[], kwonlyargs=[], kw_defaults=[], defaults=[]), decorator_list=[], type_params=[], body=[s])
+            out = {}
+            try:
+                run_function(fn, [], env=env, budget=20000, out_scope=out)
+            except Exception:
+                continue
+            for k_, v_ in out.items():
+                if k_ not in env or env[k_] is not v_:
+                    env[k_] = v_
+    # constants that read a name bound further down (the canonical module orders its constants by name): evaluate again once everything else is there
+    for _ in range(3):
+        left = []
+        for s in retry:
+            try:
+                env[s.targets[0].id] = ev.ev(s.value)
+            except Exception:
+                left.append(s)
+        if len(left) == len(retry):
+            break
+        retry = left
     return env
